@@ -92,7 +92,7 @@ def run(req):
         oc = Outcome('return', result=res)
     except BaseException as e:  # noqa
         def qn(k):
-            return k.__name__ if k.__module__ in ('builtins', 'exceptions') or k.__module__.startswith('pycdlib') else k.__module__ + '.' + k.__name__
+            return k.__name__ if k.__module__ in ('builtins', 'exceptions') or k.__module__.startswith('pycdlib') or k.__module__.startswith('pyvc') else k.__module__ + '.' + k.__name__
         oc = Outcome('raise', exc=qn(type(e)))
         oc.exc_obj = e
         oc.exc_names = [qn(k) for k in type(e).__mro__]
